@@ -77,6 +77,16 @@ CHECKS = {
          "The same byte neighbourhoods plus adversarial letters (lengths 2^32-1, 2^31, 2^21+1 at every 4-byte window; 10^5-deep and unterminated CLVM spines; back-references; over-long atom prefixes; a 1 MiB buffer) are offered to both decoders of all 169 types (5.5M decodes quick, 27M thorough): each decode returns a value or an error without panic, abort, fatal signal or watchdog timeout; peak live memory <= 512*len + 7 MiB with no request above 1 GiB; prefixes and one-byte extensions of accepted encodings are rejected; re-encode, hash, compare and Debug of every decoded value complete, except the known v2 proof-of-space hash panic (known finding).",
          "trusts: the counting global allocator (per-thread peak), the child-process/breadcrumb/watchdog machinery (self-tested: C14_SELFTEST=greedy|oversize|abort|overflow|hang|codecs), the constants 512 B per input byte and Vec depth 3",
          "DESIGN.md#c14"),
+ "C09": ("E", "exploration",
+         "bounded-exhaustive differential enumeration of accepted generators through the trusted helpers versus full validation",
+         "For every generator of the stated families that run_block_generator2 accepts (CREATE_COIN with 11 memo shapes x 23 length-class boundary amounts, 23 spent-coin amounts, every interaction letter alone / in a two-spend block with hinted outputs / in ordered pairs, a spend mixing hinted, unhinted and unknown-opcode conditions, an ephemeral chain, spend-level extension, output extension, procedural generators incl. one reading a block reference; plain and back-reference compressed; 3 flag sets): additions_and_removals returns the validated spends in order with correct ids and the validated outputs with the same hints; get_coinspends_for_trusted_block (+_with_conditions) returns the same spends, whose rebuilt generator validates to the same conditions; get_puzzle_and_solution_for_coin finds every removed coin with puzzle/solution hashing to the originals; SpendBundle::additions lists the same created coins.",
+         "trusts: harness tree hash / codec; clvmr for running the generator when locating the output tree; only accepted generators are compared (the helpers are specified for valid blocks)",
+         "DESIGN.md#c09"),
+ "C10": ("H", "model_checking",
+         "exhaustive history search over add_spend_bundles/finalize on fresh real builders with decoding, signature, consensus-cost and differential undo oracles",
+         "Every history of <=3 (quick, 16276 per builder) / <=4 (thorough, 406901 per builder) add attempts over 25 letters (bundle shape: one spend, two spends sharing its puzzle, 40 kB solution, undecodable reveal, batch of two; declared cost: truthful, landing exactly on the block limit (computed by a dry run), that+1 (late rejection -> undo), limit+1 (early rejection), 0) followed by finalize is executed on a fresh BlockBuilder and a fresh InternedBlockBuilder: no panic; the finalized generator decodes (back-reference parser + harness) to exactly the multiset of spends of the accepted attempts; the signature is the harness's aggregate of exactly their signatures; cost <= max; with truthful costs the returned cost equals what run_block_generator2 charges for the generator; cost() before finalize >= final cost; and the history with the rejected attempts deleted yields byte-identical generator, signature and cost.",
+         "trusts: run_spendbundle for the truthful declared cost, clvmr's back-reference parser for decoding, run_block_generator2 as the consensus cost; known finding: cost() of a builder with no accepted add underestimates the empty block",
+         "DESIGN.md#c10"),
 }
 
 PENDING_REASON = "check not built yet in this round (planned: see DESIGN.md section for this property); not claimed until it runs"
